@@ -45,15 +45,24 @@ pub struct AesReader<R> {
 }
 
 impl<R: Read> AesReader<R> {
-    pub fn new(reader: R, aes_mode: AesMode, compressed_size: u64) -> AesReader<R> {
+    pub fn new(
+        reader: R,
+        aes_mode: AesMode,
+        compressed_size: u64,
+    ) -> crate::result::ZipResult<AesReader<R>> {
+        // An entry shorter than salt + password verifier + authentication code cannot be
+        // a valid AES container; reject it instead of underflowing.
         let data_length = compressed_size
-            - (PWD_VERIFY_LENGTH + AUTH_CODE_LENGTH + aes_mode.salt_length()) as u64;
+            .checked_sub((PWD_VERIFY_LENGTH + AUTH_CODE_LENGTH + aes_mode.salt_length()) as u64)
+            .ok_or(crate::result::ZipError::InvalidArchive(
+                "AES entry is too short",
+            ))?;
 
-        Self {
+        Ok(Self {
             reader,
             aes_mode,
             data_length,
-        }
+        })
     }
 
     /// Read the AES header bytes and validate the password.
